@@ -10,7 +10,7 @@ pub fn def() -> PropDef {
         builds: BOTH,
         rule: "every text over {L,SP,HY,W,E2,CM,CSI,TAB,OSH (an OSC hyperlink with a hyphen in its URL)}(+NL) up to length N x separator x splitter x break_words x algorithm x 8 indent pairs (empty, 1 column, 2 columns in 3 bytes, ending in a space; both positions) x widths 0..=byte length+indent+2 and the extremes (brackets both the display-width and the byte-length threshold); oracle 1 on every paragraph that fits; oracle 2 = differential of the real shortcut entry points against the real general-path entry points (--cfg fuzzing seam); non-trivial = a paragraph that fits by display width but for which the byte-length shortcut cannot be taken, or a differential evaluated with the shortcut eligible",
         assumptions: BASE_ASSUMPTIONS,
-        floor: |t| t.pick(100_000, 1_000_000),
+        floor: |t| t.pick(100_000, 300_000),
         run,
     }
 }
